@@ -2,6 +2,7 @@ import Flatland.JsonUtil
 import Flatland.Markup.Json
 import Flatland.C12
 import Flatland.C11
+import Flatland.C19
 open Lean Flatland.J
 namespace Flatland.Run.C12
 open Flatland.Markup Flatland.Markup.Json Flatland.C12 Flatland.Generated.C11
@@ -31,6 +32,45 @@ def parseRender (j : Json) : Except String Render := do
   let shown ← chars (fldD j "arr_shown" (Json.str ""))
   return ⟨sel, tag0, ← parsePairs parseVal (← fld j "kwargs"), within, shown, ← parseHow j⟩
 
+/-- one call of the pre-history (made, and caught, on the same generator before the first rendering) -/
+inductive PreOp
+  | settings (op : Flatland.C19.Op)     -- begin / end / set / []= / update: run by the C19 model of Context / Generator
+  | tag (r : Render)                    -- a tag call (meant to raise midway)
+  | badBind                             -- a tag call whose bind is not an element (outside `Bind`): see `runPre`
+
+def parsePreOp (j : Json) : Except String PreOp := do
+  match (← sfld j "op") with
+  | "begin" => return .settings (.begin (← parsePairs parseCVal (← fld j "settings")))
+  | "end" => return .settings .end_
+  | "set" => return .settings (.set (← parsePairs parseCVal (← fld j "settings")))
+  | "setitem" => return .settings (.setItem (← cfld j "key") (← parseCVal (← fld j "value")))
+  | "update" => do
+    -- `update(mapping, **kw)`: `source = list(to_pairs(mapping)); source.extend(kwargs.items())`
+    let posJ := fldD j "pos" Json.null
+    let pos ← if isNull posJ then pure [] else parsePairs parseCVal posJ
+    return .settings (.update (pos ++ (← parsePairs parseCVal (← fld j "settings"))))
+  | "tag" => do
+    match fldD j "badbind" (Json.bool false) with
+    | Json.bool true => return .badBind
+    | _ => return .tag (← parseRender j)
+  | o => throw s!"unknown pre-history op {o}"
+
+/-- the generator after one pre-history call and the exception it raised (if any).  Settings calls are
+    `Flatland.C19.step` (a rejected one leaves the generator as it was: `Proofs/C12Rejected.lean`); a tag call is
+    `Gen.renderHow`, its markup dropped.  A bind that is not an element cannot be written as a `Bind`: the cases force
+    `auto_name="on"` on such a call, so the first transform asks it for `flattened_name()` → AttributeError before any
+    setting is read or written. -/
+def runPre (T : Tables) (tree : Tree) (g : Gen) : PreOp → Gen × Option PyErr
+  | .settings op => let (g', o) := Flatland.C19.step T Flatland.C19.RenderCfg.current g op; (g', o.err)
+  | .badBind => (g, some .attributeError)
+  | .tag r =>
+    let bind := match r.sel with
+      | none => none
+      | some s => select r.shown tree [] s
+    match g.renderHow T attrChain voidElements staticAttributeOrder r.how r.tag bind r.kwargs with
+    | (.ok _, g') => (g', none)
+    | (.error e, g') => (g', some e)
+
 def ofPair (p : Option (List Char × List Char)) : Json :=
   match p with
   | none => Json.null
@@ -41,9 +81,14 @@ def run (j : Json) : Except String Json := do
   let tree ← parseTree (← fld j "tree")
   let renders ← (← afld j "renders").mapM parseRender
   match Gen.init T (← cfld j "markup") (← parsePairs parseCVal (← fld j "settings")) with
-  | .error e => return obj [("init_err", Json.str e.name), ("renders", Json.arr #[])]
+  | .error e => return obj [("init_err", Json.str e.name), ("pre", Json.arr #[]), ("renders", Json.arr #[])]
   | .ok g0 =>
     let mut g := g0
+    let mut pres : Array Json := #[]
+    for pj in (← arr (fldD j "pre" (Json.arr #[]))) do
+      let (g', e) := runPre T tree g (← parsePreOp pj)
+      g := g'
+      pres := pres.push (obj [("err", ofErr e)])
     let mut outs : Array Json := #[]
     let mut names : Array (Option (List Char)) := #[]     -- name attribute of every render (for options)
     for r in renders do
@@ -82,6 +127,6 @@ def run (j : Json) : Except String Json := do
           ("id", ofOpt ofStr (attr? attrs sId)), ("for", ofOpt ofStr (attr? attrs sFor))])
         names := names.push (attr? attrs sName)
         g := { g with ctx := res.ctx }
-    return obj [("init_err", Json.null), ("renders", Json.arr outs)]
+    return obj [("init_err", Json.null), ("pre", Json.arr pres), ("renders", Json.arr outs)]
 
 end Flatland.Run.C12
